@@ -345,7 +345,10 @@ impl TriMesh {
         let mut result = Ok(());
         let prev_indices_len = self.indices.len();
 
-        if !flags.contains(TriMeshFlags::HALF_EDGE_TOPOLOGY) {
+        // NOTE: `DELETE_BAD_TOPOLOGY_TRIANGLES` computes (and keeps) the topology too.
+        if !flags.intersects(
+            TriMeshFlags::HALF_EDGE_TOPOLOGY | TriMeshFlags::DELETE_BAD_TOPOLOGY_TRIANGLES,
+        ) {
             self.topology = None;
         }
 
@@ -358,7 +361,8 @@ impl TriMesh {
             self.connected_components = None;
         }
 
-        let difference = flags & !self.flags;
+        // The data that must be (re)computed: initially, only what the new flags add.
+        let mut difference = flags & !self.flags;
 
         if difference.intersects(
             TriMeshFlags::MERGE_DUPLICATE_VERTICES
@@ -368,14 +372,22 @@ impl TriMesh {
             self.merge_duplicate_vertices(
                 flags.contains(TriMeshFlags::DELETE_DEGENERATE_TRIANGLES),
                 flags.contains(TriMeshFlags::DELETE_DUPLICATE_TRIANGLES),
-            )
+            );
+            // Vertices and indices changed: everything we already had is no longer valid.
+            difference = flags;
         }
 
         if difference.intersects(
             TriMeshFlags::HALF_EDGE_TOPOLOGY | TriMeshFlags::DELETE_BAD_TOPOLOGY_TRIANGLES,
         ) {
+            let indices_len = self.indices.len();
             result =
                 self.compute_topology(flags.contains(TriMeshFlags::DELETE_BAD_TOPOLOGY_TRIANGLES));
+
+            if indices_len != self.indices.len() {
+                // Triangles were deleted: everything we already had is no longer valid.
+                difference = flags;
+            }
         }
 
         #[cfg(feature = "std")]
@@ -602,17 +614,8 @@ impl TriMesh {
         self.vertices = new_vertices;
         self.indices = new_indices;
 
-        // Vertices and indices changed: the pseudo-normals are no longer valid.
-        #[cfg(feature = "dim3")]
-        if self.pseudo_normals.is_some() {
-            self.compute_pseudo_normals();
-        }
-
-        // Vertices and indices changed: the topology no longer valid.
-        #[cfg(feature = "dim3")]
-        if self.topology.is_some() {
-            let _ = self.compute_topology(false);
-        }
+        // NOTE: vertices and indices changed: the topology, connected components and
+        //       pseudo-normals are no longer valid. The caller (`set_flags`) recomputes them.
     }
 
     #[cfg(feature = "dim3")]
@@ -734,6 +737,9 @@ impl TriMesh {
     /// Returns `true` if the computation succeeded. Returns `false` if this mesh can’t have an half-edge representation
     /// because at least three faces share the same edge.
     fn compute_topology(&mut self, delete_bad_triangles: bool) -> Result<(), TopologyError> {
+        // The previous topology (if any) must not survive a failed computation.
+        self.topology = None;
+
         if delete_bad_triangles {
             self.delete_bad_topology_triangles();
         }
